@@ -197,6 +197,20 @@ CHECKS.update({
             'Hook AI_EDGE_QUANTIZER_VERIF_LARGE_MODEL_THRESHOLD only selects the '
             'existing branch. Buffer sizes are small (2..256 bytes).', '7/C16'),
 })
+CHECKS.update({
+    'C10': (E1, 'exhaustive enumeration of a regex alphabet x operator selectors x '
+            'configs on separator-isolated operator chains; differential '
+            'comparison of the calibration-selected and quantization-selected sets',
+            'Chains x->ABS->OP1->ABS->OP2->ABS over 7 supported operators (incl. '
+            'the multi-output SPLIT), three tensor-name styles, single- and '
+            'two-signature models, 9-12 regexes per target (anchored, with '
+            'separators, prefixes, non-matching) x {specific op, *} x {8,16-bit}: '
+            'the operators that received statistics equal the operators '
+            'quantized, and calibrate()->quantize() never fails for missing '
+            'statistics, per signature.',
+            'Selection during calibration is observed through the statistics of '
+            'tensors made private by unsupported separator ops.', '7/C10'),
+})
 NOT_YET = {
 }
 
